@@ -550,10 +550,14 @@ func init() {
 		name: "pypi.ParseDependency", systems: none, apis: []string{"pypi.ParseDependency"},
 		valid: one(depSentence), dict: pyDict, simple: func(string) [][]byte { return bb("foo (>=1.0) ; python_version < '3'") }, longParts: []int{0}, weight: 6,
 		long: map[string]func(string, int) []byte{
-			"dep-extras-open":   func(_ string, n int) []byte { return []byte("a" + strings.Repeat("[", n)) },
-			"dep-parens":        func(_ string, n int) []byte { return []byte("a " + strings.Repeat("(", n) + ">=1" + strings.Repeat(")", n)) },
-			"dep-marker-parens": func(_ string, n int) []byte { return []byte("a; " + strings.Repeat("(", n) + "os_name=='a'" + strings.Repeat(")", n)) },
-			"dep-spec-list":     func(_ string, n int) []byte { return []byte("a " + strings.Repeat(">=1,", n) + "<2") },
+			"dep-extras-open": func(_ string, n int) []byte { return []byte("a" + strings.Repeat("[", n)) },
+			"dep-parens": func(_ string, n int) []byte {
+				return []byte("a " + strings.Repeat("(", n) + ">=1" + strings.Repeat(")", n))
+			},
+			"dep-marker-parens": func(_ string, n int) []byte {
+				return []byte("a; " + strings.Repeat("(", n) + "os_name=='a'" + strings.Repeat(")", n))
+			},
+			"dep-spec-list": func(_ string, n int) []byte { return []byte("a " + strings.Repeat(">=1,", n) + "<2") },
 		},
 		longNs: map[string][]int{"dep-extras-open": {100000}, "dep-parens": {100000}, "dep-marker-parens": {100000}, "dep-spec-list": {100000}},
 		run: func(x *runner, _ string, in []byte) string {
@@ -565,13 +569,19 @@ func init() {
 	register(&driver{
 		name: "pypi.ParseMetadata", systems: none, apis: []string{"pypi.ParseMetadata"},
 		valid: one(metadataSentence), dict: append([]string{"\n", "\n\n", ": ", "Requires-Dist: ", "Name: ", "\n ", "UNKNOWN", "\r\n"}, pyDict...),
-		simple: func(string) [][]byte { return bb("Metadata-Version: 2.1\nName: foo\nVersion: 1.0\nRequires-Dist: bar\n") }, longParts: []int{0}, weight: 6,
+		simple: func(string) [][]byte {
+			return bb("Metadata-Version: 2.1\nName: foo\nVersion: 1.0\nRequires-Dist: bar\n")
+		}, longParts: []int{0}, weight: 6,
 		long: map[string]func(string, int) []byte{
-			"meta-requires":     func(_ string, n int) []byte { return []byte("Name: a\n" + strings.Repeat("Requires-Dist: b (>=1) ; extra == 'x'\n", n)) },
-			"meta-continuation": func(_ string, n int) []byte { return []byte("Name: a\nDescription: x\n" + strings.Repeat("        y\n", n)) },
-			"meta-headers":      func(_ string, n int) []byte { return []byte(strings.Repeat("Classifier: x\n", n)) },
-			"meta-body":         func(_ string, n int) []byte { return []byte("Name: a\n\n" + strings.Repeat("body\n", n)) },
-			"meta-long-key":     func(_ string, n int) []byte { return []byte(strings.Repeat("K", n) + ": v\n") },
+			"meta-requires": func(_ string, n int) []byte {
+				return []byte("Name: a\n" + strings.Repeat("Requires-Dist: b (>=1) ; extra == 'x'\n", n))
+			},
+			"meta-continuation": func(_ string, n int) []byte {
+				return []byte("Name: a\nDescription: x\n" + strings.Repeat("        y\n", n))
+			},
+			"meta-headers":  func(_ string, n int) []byte { return []byte(strings.Repeat("Classifier: x\n", n)) },
+			"meta-body":     func(_ string, n int) []byte { return []byte("Name: a\n\n" + strings.Repeat("body\n", n)) },
+			"meta-long-key": func(_ string, n int) []byte { return []byte(strings.Repeat("K", n) + ": v\n") },
 		},
 		longNs: map[string][]int{"meta-requires": {10000}, "meta-continuation": {100000}, "meta-headers": {50000}, "meta-body": {200000}, "meta-long-key": {1000000}},
 		run: func(x *runner, _ string, in []byte) string {
@@ -691,14 +701,28 @@ func init() {
 		name: "maven.Project.decode", systems: none, apis: []string{"maven.Project.UnmarshalXML"},
 		valid: one(pomSentence), dict: xmlDict, simple: func(string) [][]byte { return bb("<project><artifactId>a</artifactId></project>") }, longParts: []int{0}, weight: 6,
 		long: map[string]func(string, int) []byte{
-			"pom-deep-nesting":   func(_ string, n int) []byte { return []byte("<project>" + strings.Repeat("<a>", n)) },
-			"pom-deep-props":     func(_ string, n int) []byte { return []byte("<project><properties><p>" + strings.Repeat("<a>", n) + strings.Repeat("</a>", n) + "</p></properties></project>") },
-			"pom-many-deps":      func(_ string, n int) []byte { return []byte("<project><dependencies>" + strings.Repeat("<dependency><groupId>g</groupId><artifactId>a</artifactId></dependency>", n) + "</dependencies></project>") },
-			"pom-many-props":     func(_ string, n int) []byte { return []byte("<project><properties>" + strings.Repeat("<p>v</p>", n) + "</properties></project>") },
-			"pom-long-text":      func(_ string, n int) []byte { return []byte("<project><version>" + strings.Repeat("1.", n) + "</version></project>") },
-			"pom-many-attrs":     func(_ string, n int) []byte { return []byte("<project" + strings.Repeat(" a=\"b\"", n) + "></project>") },
-			"pom-entities":       func(_ string, n int) []byte { return []byte("<project><name>" + strings.Repeat("&amp;", n) + "</name></project>") },
-			"pom-many-profiles":  func(_ string, n int) []byte { return []byte("<project><profiles>" + strings.Repeat("<profile><id>p</id><activation><jdk>[1.8,)</jdk></activation></profile>", n) + "</profiles></project>") },
+			"pom-deep-nesting": func(_ string, n int) []byte { return []byte("<project>" + strings.Repeat("<a>", n)) },
+			"pom-deep-props": func(_ string, n int) []byte {
+				return []byte("<project><properties><p>" + strings.Repeat("<a>", n) + strings.Repeat("</a>", n) + "</p></properties></project>")
+			},
+			"pom-many-deps": func(_ string, n int) []byte {
+				return []byte("<project><dependencies>" + strings.Repeat("<dependency><groupId>g</groupId><artifactId>a</artifactId></dependency>", n) + "</dependencies></project>")
+			},
+			"pom-many-props": func(_ string, n int) []byte {
+				return []byte("<project><properties>" + strings.Repeat("<p>v</p>", n) + "</properties></project>")
+			},
+			"pom-long-text": func(_ string, n int) []byte {
+				return []byte("<project><version>" + strings.Repeat("1.", n) + "</version></project>")
+			},
+			"pom-many-attrs": func(_ string, n int) []byte {
+				return []byte("<project" + strings.Repeat(" a=\"b\"", n) + "></project>")
+			},
+			"pom-entities": func(_ string, n int) []byte {
+				return []byte("<project><name>" + strings.Repeat("&amp;", n) + "</name></project>")
+			},
+			"pom-many-profiles": func(_ string, n int) []byte {
+				return []byte("<project><profiles>" + strings.Repeat("<profile><id>p</id><activation><jdk>[1.8,)</jdk></activation></profile>", n) + "</profiles></project>")
+			},
 		},
 		longNs: map[string][]int{"pom-deep-nesting": {9000, 100000}, "pom-deep-props": {9000, 100000}, "pom-many-deps": {10000}, "pom-many-props": {50000}, "pom-long-text": {400000}, "pom-many-attrs": {100000}, "pom-entities": {100000}, "pom-many-profiles": {5000}},
 		run: func(x *runner, _ string, in []byte) string {
@@ -757,12 +781,14 @@ func init() {
 			},
 		},
 		longNs: map[string][]int{"pom-parent-chain": {100, 10000}, "pom-import-chain": {10000}, "pom-placeholder-fanout": {100000}, "pom-self-reference": {50000}, "pom-many-dup-deps": {10000}},
-		run: runMavenPipeline,
+		run:    runMavenPipeline,
 	})
 	register(&driver{
 		name: "maven.MakeProjectKey", systems: none, apis: []string{"maven.MakeProjectKey", "maven.ProjectKey.Name"},
-		valid: func(g *genCtx, _ string) [][]byte { return bb(gen.Pick(g.r, "g:a", "org.x:y", "g", "g:a:b", ":"), gen.MavenVer(g.r)) },
-		dict:  []string{":", "::", "|"}, simple: func(string) [][]byte { return bb("g:a", "1.0") }, longParts: []int{0}, weight: 2,
+		valid: func(g *genCtx, _ string) [][]byte {
+			return bb(gen.Pick(g.r, "g:a", "org.x:y", "g", "g:a:b", ":"), gen.MavenVer(g.r))
+		},
+		dict: []string{":", "::", "|"}, simple: func(string) [][]byte { return bb("g:a", "1.0") }, longParts: []int{0}, weight: 2,
 		run: func(x *runner, _ string, in []byte) string {
 			p := splitN(in, 2)
 			x.hit("maven.MakeProjectKey")
@@ -787,9 +813,13 @@ func init() {
 				return []byte(b.String())
 			},
 			"schema-many-pipes": func(_ string, n int) []byte { return []byte("a\n\t" + strings.Repeat("Dev|", n) + "1\n") },
-			"schema-long-attr":  func(_ string, n int) []byte { return []byte("a\n\t1\n\t\tATTR: Tags " + strings.Repeat("x ", n) + "\n") },
-			"schema-long-type":  func(_ string, n int) []byte { return []byte("a\n\t1\n\t\t" + strings.Repeat("Dev ", n) + "|b@1\n") },
-			"schema-quotes":     func(_ string, n int) []byte { return []byte("a\n\t1\n\t\tKnownAs " + strings.Repeat("\"", n) + "|b@1\n") },
+			"schema-long-attr": func(_ string, n int) []byte {
+				return []byte("a\n\t1\n\t\tATTR: Tags " + strings.Repeat("x ", n) + "\n")
+			},
+			"schema-long-type": func(_ string, n int) []byte { return []byte("a\n\t1\n\t\t" + strings.Repeat("Dev ", n) + "|b@1\n") },
+			"schema-quotes": func(_ string, n int) []byte {
+				return []byte("a\n\t1\n\t\tKnownAs " + strings.Repeat("\"", n) + "|b@1\n")
+			},
 		},
 		longNs: map[string][]int{"schema-many-versions": {2000}, "schema-many-pipes": {100000}, "schema-long-attr": {100000}, "schema-long-type": {100000}, "schema-quotes": {100001}},
 		run: func(x *runner, sys string, in []byte) string {
@@ -838,7 +868,9 @@ func init() {
 				return []byte(b.String())
 			},
 			"graph-labels": func(_ string, n int) []byte { return []byte("1: a 1\n" + strings.Repeat("\t$1@*\n", n)) },
-			"graph-errors": func(_ string, n int) []byte { return []byte("a 1\n" + strings.Repeat("\tb@1 ERROR: x\n", n) + strings.Repeat("ERROR: y\n", n)) },
+			"graph-errors": func(_ string, n int) []byte {
+				return []byte("a 1\n" + strings.Repeat("\tb@1 ERROR: x\n", n) + strings.Repeat("ERROR: y\n", n))
+			},
 			"graph-label-colons": func(_ string, n int) []byte { return []byte(strings.Repeat("a: ", n) + "a 1\n") },
 		},
 		longNs: map[string][]int{"graph-tab-chain": {1000}, "graph-art-prefix": {30000}, "graph-spaces": {50000}, "graph-wide": {20000}, "graph-wide-distinct": {5000}, "graph-labels": {20000}, "graph-errors": {10000}, "graph-label-colons": {100000}},
